@@ -55,16 +55,98 @@ class Tr17(ExprTr):
 
 
 # --------------------------------------------------------------------------------------------------------------
+class _Subst(ast.NodeTransformer):
+    def __init__(self, env, stop):
+        self.env, self.stop = env, stop
+
+    def visit_Name(self, node):
+        if node.id in self.env and node.id not in self.stop and isinstance(node.ctx, ast.Load):
+            return self.env[node.id]
+        return node
+
+
+def _subst(expr, env, stop):
+    import copy
+    return _Subst(env, stop).visit(copy.deepcopy(expr))
+
+
+def _helper_of(call, funcs, qual):
+    """the FunctionDef of a helper of the same class / module called as `self.h(...)`, `Class.h(...)`, `cls.h(...)` or `h(...)`"""
+    f = call.func
+    name = f.attr if isinstance(f, ast.Attribute) else (f.id if isinstance(f, ast.Name) else None)
+    if name is None:
+        return None
+    scope = qual.rsplit(".", 1)[0] if "." in qual else ""
+    for cand in ((scope + "." if scope else "") + name, name):
+        if cand in funcs:
+            return funcs[cand]
+    return None
+
+
+def _inline_env(fn, funcs, qual, env, stop, depth=0):
+    """symbolic execution of the straight-line assignments of `fn`: local -> expression over the leaves (`stop` names, parameters,
+    anything never assigned); helper calls whose result is unpacked are inlined with their argument bindings.  Returns (env,
+    returned expression or None)."""
+    if depth > 4:
+        raise Untranslatable("helper nesting too deep")
+    ret = None
+    for st in fn.body:
+        if isinstance(st, ast.Expr) and isinstance(st.value, ast.Constant):
+            continue
+        if isinstance(st, ast.Return):
+            ret = _subst(st.value, env, stop) if st.value is not None else None
+            break
+        if not isinstance(st, ast.Assign) or len(st.targets) != 1:
+            continue                        # other statements do not define the locals we look for
+        tgt, val = st.targets[0], st.value
+        if isinstance(val, ast.Call):
+            h = _helper_of(val, funcs, qual)
+            if h is not None and not val.keywords:
+                params = [a.arg for a in h.args.args if a.arg not in ("self", "cls")]
+                if len(params) == len(val.args):
+                    henv = {p: _subst(a, env, stop) for p, a in zip(params, val.args)}
+                    _e, r = _inline_env(h, funcs, qual, henv, set(), depth + 1)
+                    if r is not None:
+                        val = r
+        else:
+            val = _subst(val, env, stop)
+        if isinstance(tgt, ast.Name):
+            if tgt.id not in stop:
+                env[tgt.id] = val
+        elif isinstance(tgt, (ast.Tuple, ast.List)) and isinstance(val, (ast.Tuple, ast.List)) and len(val.elts) == len(tgt.elts):
+            for t, v in zip(tgt.elts, val.elts):
+                if isinstance(t, ast.Name) and t.id not in stop:
+                    env[t.id] = v
+    return env, ret
+
+
+def _resolved_local(k, fn, name, stop, elt=None):
+    funcs = _functions_of(parse_file(REPO / k.file))
+    env, _ = _inline_env(fn, funcs, k.func, {}, set(stop))
+    if name not in env:
+        raise Untranslatable(f"assignment to `{name}` not found")
+    node = env[name]
+    if elt is not None:
+        if isinstance(node, ast.BinOp) and isinstance(node.op, ast.Mult):
+            # `[x] * 2` / `2 * [x]`: list repetition by a literal
+            lst, rep = (node.left, node.right) if isinstance(node.left, (ast.List, ast.Tuple)) else (node.right, node.left)
+            if isinstance(lst, (ast.List, ast.Tuple)) and isinstance(rep, ast.Constant) and isinstance(rep.value, int) and 0 <= rep.value <= 8:
+                node = ast.List(elts=list(lst.elts) * rep.value, ctx=ast.Load())
+        if not isinstance(node, (ast.List, ast.Tuple)) or len(node.elts) <= elt:
+            raise Untranslatable(f"`{name}` is not a list literal with {elt + 1} elements")
+        node = node.elts[elt]
+    return node
+
+
 def _value_of(binds, target, elt=None):
-    """Kernel = right-hand side of the assignment to local `target` (optionally element `elt` of a list literal)."""
+    """Kernel = value of local `target` (optionally element `elt` of a list literal) as an expression over the bound leaves:
+    single assignments, tuple assignments and calls of helpers of the same class / module (`w_mult, w_pad = C._split(w)`) are
+    followed; arithmetic differences are left to the Lean bridge."""
 
     def build(k: Kernel, fn: ast.FunctionDef) -> str:
         tr = Tr17(binds)
-        node = find_assign(fn, target).value
-        if elt is not None:
-            if not isinstance(node, (ast.List, ast.Tuple)) or len(node.elts) <= elt:
-                raise Untranslatable(f"`{target}` is not a list literal with {elt + 1} elements")
-            node = node.elts[elt]
+        stop = {b for b in binds if b.isidentifier() and b != target}
+        node = _resolved_local(k, fn, target, stop, elt)
         return emit_def(k.name, k.params, [], tr.int(node), k.ret_type)
 
     return build
@@ -142,17 +224,111 @@ def _padding_list(binds, scope_for=False):
     return build
 
 
-def _crop(binds, axis_name, shape_idx):
-    """`if h > shape[0]: x = x[:, :, :shape[0], :]` -> resulting length of that axis."""
+class _SizeToShape(ast.NodeTransformer):
+    """`T.size(c)` -> `T.shape[c]`"""
+
+    def visit_Call(self, node):
+        self.generic_visit(node)
+        if isinstance(node.func, ast.Attribute) and node.func.attr == "size" and len(node.args) == 1 and not node.keywords:
+            return ast.Subscript(value=ast.Attribute(value=node.func.value, attr="shape", ctx=ast.Load()), slice=node.args[0],
+                                 ctx=ast.Load())
+        return node
+
+
+def _pad_list_general(kind):
+    """The list handed to the (single) reflect `F.pad` reached from the function — through private helpers of the same class —
+    as conditional entries (List Int).  Two spellings are understood: the zero-initialised list patched by `if c: padding[i] = v`
+    statements, and the list literal `[0, pad_right, 0, pad_bottom]` whose entries are locals (`1 if a != b else 0`, `n % 2`).
+    Leaves are bound by ROLE: axis `-k` of the padded tensor is `o<k>` (`h`/`w` for kind "even"), of the other tensor `d<k>`."""
 
     def build(k: Kernel, fn: ast.FunctionDef) -> str:
+        import copy
+        funcs = _functions_of(parse_file(REPO / k.file))
+        cands = []
+        if k.func not in funcs:
+            raise Untranslatable(f"{k.func} not found")
+        reach = _reachable(funcs[k.func], funcs, k.func)
+        for q, f in funcs.items():
+            if any(f is r for r in reach):
+                for n in ast.walk(f):
+                    if isinstance(n, ast.Call) and ast.unparse(n.func) == "F.pad" and len(n.args) >= 2 \
+                            and any(isinstance(a, ast.Constant) and a.value == "reflect" for a in list(n.args[2:]) + [kw.value for kw in n.keywords]):
+                        cands.append((q, f, n))
+        if len(cands) != 1:
+            raise Untranslatable(f"{len(cands)} reflect F.pad calls reachable")
+        q, g, call = cands[0]
+        padded = ast.unparse(call.args[0])
+        spec = call.args[1]
+        norm = lambda e: ast.fix_missing_locations(_SizeToShape().visit(copy.deepcopy(e)))  # noqa: E731
+        entries = None            # list of (list of (condition ast, value ast)) per position, after the initial value
+        if isinstance(spec, ast.Name):
+            init, conds = None, {}
+            for st in all_stmts(g):
+                if isinstance(st, ast.Assign) and ast.unparse(st.targets[0]) == spec.id and isinstance(st.value, ast.List):
+                    init = list(st.value.elts)
+                if isinstance(st, ast.If) and not st.orelse and all(
+                        isinstance(b, ast.Assign) and isinstance(b.targets[0], ast.Subscript)
+                        and ast.unparse(b.targets[0].value) == spec.id for b in st.body):
+                    for b in st.body:
+                        idx = b.targets[0].slice
+                        if not (isinstance(idx, ast.Constant) and isinstance(idx.value, int)):
+                            raise Untranslatable(f"non-literal index `{ast.unparse(b.targets[0])}`")
+                        conds.setdefault(idx.value, []).append((norm(st.test), norm(b.value)))
+            if init is None:
+                raise Untranslatable(f"`{spec.id} = [...]` not found")
+            if not conds:
+                raise Untranslatable(f"no conditional `{spec.id}[i] = v` found")
+            if any(i >= len(init) for i in conds):
+                raise Untranslatable("index outside the padding list")
+            entries = [(norm(v), conds.get(i, [])) for i, v in enumerate(init)]
+        elif isinstance(spec, (ast.List, ast.Tuple)):
+            env, _ = _inline_env(g, funcs, q, {}, set())
+            entries = [(norm(_subst(e, env, set())), []) for e in spec.elts]
+        else:
+            raise Untranslatable("F.pad list is neither a local list nor a list literal")
+        # bind the leaves `T.shape[-k]` by role
+        tensors = []
+        for v, cs in entries:
+            for e in [v] + [x for c in cs for x in c]:
+                for n in ast.walk(e):
+                    if isinstance(n, ast.Subscript) and isinstance(n.value, ast.Attribute) and n.value.attr == "shape":
+                        t = ast.unparse(n.value.value)
+                        if t not in tensors:
+                            tensors.append(t)
+        others = [t for t in tensors if t != padded]
+        if len(others) > 1:
+            raise Untranslatable("more than two tensors in the padding conditions")
+        binds = {}
+        for ax in (1, 2, 3):
+            binds[f"{padded}.shape[-{ax}]"] = {1: "w", 2: "h"}.get(ax, f"o{ax}") if kind == "even" else f"o{ax}"
+            if others:
+                binds[f"{others[0]}.shape[-{ax}]"] = f"d{ax}"
         tr = Tr17(binds)
+        out = []
+        for v, cs in entries:
+            cur = tr.int(v)
+            for c, val in cs:
+                cur = f"(if {tr.bool(c)} then {tr.int(val)} else {cur})"
+            out.append(cur)
+        ps = " ".join(f"({p} : Int)" for p in k.params)
+        return f"def {k.name} {ps} : List Int :=\n  [{', '.join(out)}]\n"
+
+    return build
+
+
+def _crop(binds, axis_name, shape_idx):
+    """`if h > shape[0]: x = x[:, :, :shape[0], :]` -> resulting length of that axis (the local holding the length may have
+    any name: it is the one compared with `shape[shape_idx]`)."""
+
+    def build(k: Kernel, fn: ast.FunctionDef) -> str:
         for st in all_stmts(fn):
             if not (isinstance(st, ast.If) and not st.orelse and len(st.body) == 1 and isinstance(st.body[0], ast.Assign)):
                 continue
             t = st.test
-            if not (isinstance(t, ast.Compare) and isinstance(t.left, ast.Name) and t.left.id == axis_name):
+            if not (isinstance(t, ast.Compare) and isinstance(t.left, ast.Name) and len(t.ops) == 1
+                    and ast.unparse(t.comparators[0]).replace(" ", "") == f"shape[{shape_idx}]"):
                 continue
+            tr = Tr17(dict(binds, **{t.left.id: axis_name}))
             asg = st.body[0]
             if not (isinstance(asg.value, ast.Subscript) and ast.unparse(asg.targets[0]) == ast.unparse(asg.value.value)):
                 raise Untranslatable("crop statement is not `x = x[...]`")
@@ -164,14 +340,14 @@ def _crop(binds, axis_name, shape_idx):
                 raise Untranslatable("expected one non-trivial slice of a rank-4 tensor")
             pos, s = nontrivial[0]
             if pos != 2 + shape_idx:
-                raise Untranslatable(f"`{axis_name}` is cropped on axis {pos}, expected {2 + shape_idx}")
+                raise Untranslatable(f"`{t.left.id}` is cropped on axis {pos}, expected {2 + shape_idx}")
             if not (isinstance(s, ast.Slice) and s.lower is None and s.step is None and s.upper is not None):
                 raise Untranslatable("expected `:upper`")
             n = tr.int(t.left)
             up = tr.int(s.upper)
             # python: x[:u] on an axis of length n (u >= 0) has length min(n, u)
             return emit_def(k.name, k.params, [], f"(if {tr.bool(t)} then (pyMin {n} {up}) else {n})", k.ret_type)
-        raise Untranslatable(f"`if {axis_name} > …: x = x[…]` not found")
+        raise Untranslatable(f"`if <length> > shape[{shape_idx}]: x = x[…]` not found")
 
     return build
 
@@ -326,15 +502,34 @@ def pool_params(file=U2, func="UnetModel2d.forward", call="F.avg_pool2d", repo=N
     return [_lit(kws["kernel_size"]), _lit(kws["stride"]), _lit(kws.get("padding", ast.Constant(0)))]
 
 
-def _pad_mode(fn):
+def _reachable(fn, funcs, qual):
+    """`fn` and the private helpers of the same class / module it (transitively) calls"""
+    scope = qual.rsplit(".", 1)[0] if "." in qual else ""
+    out, todo, seen = [], [(qual, fn)], set()
+    while todo:
+        q, f = todo.pop()
+        if q in seen:
+            continue
+        seen.add(q)
+        out.append(f)
+        for c, g in funcs.items():
+            nm = c.rsplit(".", 1)[-1]
+            if (c.rsplit(".", 1)[0] if "." in c else "") == scope and nm.startswith("_") and not nm.startswith("__") \
+                    and c not in seen and _calls_helper(f, nm):
+                todo.append((c, g))
+    return out
+
+
+def _pad_mode(fn, funcs=None, qual=None):
     modes = []
-    for n in ast.walk(fn):
-        if isinstance(n, ast.Call) and ast.unparse(n.func) == "F.pad":
-            if len(n.args) >= 3 and isinstance(n.args[2], ast.Constant):
-                modes.append(n.args[2].value)
-            else:
-                kw = {k.arg: k.value for k in n.keywords}
-                modes.append(kw["mode"].value if "mode" in kw and isinstance(kw["mode"], ast.Constant) else "constant")
+    for f in (_reachable(fn, funcs, qual) if funcs is not None else [fn]):
+        for n in ast.walk(f):
+            if isinstance(n, ast.Call) and ast.unparse(n.func) == "F.pad":
+                if len(n.args) >= 3 and isinstance(n.args[2], ast.Constant):
+                    modes.append(n.args[2].value)
+                else:
+                    kw = {k.arg: k.value for k in n.keywords}
+                    modes.append(kw["mode"].value if "mode" in kw and isinstance(kw["mode"], ast.Constant) else "constant")
     return modes
 
 
@@ -379,7 +574,7 @@ def _extra():
         ps = " ".join(f"({p} : Int)" for p in params)
         attempt(name, f"def {name} {ps} : List Int :=\n  {fb}\n",
                 lambda k=k, file=file, func=func, binds=binds: f"/-- translated from `{file}`:`{func}` -/\n"
-                + _padding_list(binds)(k, fn_of(file, func)))
+                + _pad_list_general("even" if params == ["h", "w"] else "updown")(k, fn_of(file, func)))
     # F.pad modes of those functions
     for name, file, func, exp in [("unet2d_pad_modes", U2, "UnetModel2d.forward", ["reflect"]),
                                   ("unet3d_pad_modes", U3, "UnetModel3d.forward", ["reflect"]),
@@ -387,7 +582,8 @@ def _extra():
                                   ("normunet_pad_modes", U2, "NormUnetModel2d.pad", ["constant"]),
                                   ("pow2_pad_modes", U3, "pad_to_pow_of_2", ["constant"])]:
         attempt(name, f"def {name} : List String := {_lean_str_list(exp)}\n",
-                lambda name=name, file=file, func=func: f"def {name} : List String := {_lean_str_list(_pad_mode(fn_of(file, func)))}\n")
+                lambda name=name, file=file, func=func: f"def {name} : List String := "
+                f"{_lean_str_list(_pad_mode(fn_of(file, func), _functions_of(trees[file]), func))}\n")
 
     # order of the pad lists handed to F.pad by the Norm-U-Nets (last axis first)
     def order(file, func):
@@ -708,27 +904,73 @@ _SIZE_CALLS = ("F.pad", "F.interpolate", "F.avg_pool2d", "F.avg_pool3d", "F.max_
                "torch.nn.functional.interpolate", "nn.functional.interpolate")
 
 
+def _functions_of(tree):
+    """{qualified name: FunctionDef} of a module"""
+    out = {}
+
+    def visit(node, qual):
+        for child in ast.iter_child_nodes(node):
+            if isinstance(child, (ast.FunctionDef, ast.AsyncFunctionDef)):
+                out[(qual + "." if qual else "") + child.name] = child
+                visit(child, (qual + "." if qual else "") + child.name)
+            elif isinstance(child, ast.ClassDef):
+                visit(child, (qual + "." if qual else "") + child.name)
+    visit(tree, "")
+    return out
+
+
+def _calls_helper(fn, helper):
+    """does `fn` call `self.<helper>` / `<Class>.<helper>` / `<helper>`?"""
+    for n in ast.walk(fn):
+        if isinstance(n, ast.Call):
+            f = n.func
+            if (isinstance(f, ast.Attribute) and f.attr == helper) or (isinstance(f, ast.Name) and f.id == helper):
+                return True
+    return False
+
+
+def _public_callers(funcs, qual):
+    """a call inside a private helper (`_name`, same class / module) belongs to the functions that reach the helper: extracting
+    a statement into a helper does not create a new site"""
+    seen, todo, out = set(), [qual], []
+    while todo:
+        q = todo.pop()
+        if q in seen:
+            continue
+        seen.add(q)
+        name = q.rsplit(".", 1)[-1]
+        scope = q.rsplit(".", 1)[0] if "." in q else ""
+        private = name.startswith("_") and not name.startswith("__")
+        callers = [c for c, fn in funcs.items() if c != q and _calls_helper(fn, name)
+                   and (c.rsplit(".", 1)[0] if "." in c else "") == scope] if private else []
+        if callers:
+            todo.extend(callers)
+        else:
+            out.append(q)
+    return sorted(set(out))
+
+
 def size_sites():
     """[(file relative to direct/nn, qualified function, call)] for every functional pad / pool / interpolate / fold call under
-    direct/nn (mobilenet excluded: a classifier, not part of the reconstruction zoo)"""
+    direct/nn (mobilenet excluded: a classifier, not part of the reconstruction zoo); calls inside private helpers are attributed
+    to the public functions that reach them"""
     rows = []
     root = REPO / "direct" / "nn"
     for path in sorted(root.rglob("*.py")):
         rel = str(path.relative_to(root))
         if rel.startswith("mobilenet"):
             continue
-        tree = parse_file(path)
-
-        def visit(node, qual):
-            for child in ast.iter_child_nodes(node):
-                if isinstance(child, (ast.FunctionDef, ast.AsyncFunctionDef, ast.ClassDef)):
-                    visit(child, (qual + "." if qual else "") + child.name)
-                else:
-                    if isinstance(child, ast.Call) and ast.unparse(child.func) in _SIZE_CALLS:
-                        rows.append((rel, qual, ast.unparse(child.func)))
-                    visit(child, qual)
-        visit(tree, "")
-    return rows
+        funcs = _functions_of(parse_file(path))
+        for qual, fn in funcs.items():
+            for n in ast.walk(fn):
+                if isinstance(n, ast.Call) and ast.unparse(n.func) in _SIZE_CALLS:
+                    # nested defs are visited on their own
+                    owner = [q for q, f2 in funcs.items() if q.startswith(qual + ".") and any(m is n for m in ast.walk(f2))]
+                    if owner:
+                        continue
+                    for q in _public_callers(funcs, qual):
+                        rows.append((rel, q, ast.unparse(n.func)))
+    return sorted(set(rows))
 
 
 def size_site_table():
